@@ -1,0 +1,25 @@
+//go:build verif
+
+// Contracts for the bmverif deductive checker (comment-only; compiled only under -tags verif).
+// Property C15, event rules: an on-valid show rule fires exactly on the rising edge of the watched valid line, an
+// on-exit show rule exactly at shutdown - nothing is shown that no rule justifies.
+
+package bondmachine
+
+//@ props C15
+
+// the valid line watched by event slot v, in a report structure
+//@ spec watched(r *SimReport, v int) bool := deref(unbox(deref(r.EventData[v]), "*bool"))
+
+//@ func EventListShow(inShutDown bool, srep *SimReport, srepOld *SimReport, vm *VM, oldVm *VM) (SimTickShow, error)
+//@   requires srep != nil && srepOld != nil
+//@   ensures justified: result1 == nil ==> (forall p int :: haskey(result, p) ==>
+//@             (exists e simEvent :: haskey(srep.EventShow, e) && srep.EventShow[e][0] == p &&
+//@                ((e.event == EVENTONEXIT && inShutDown) ||
+//@                 (e.event == EVENTONVALID && watched(srep, srep.EventShow[e][1]) && !watched(srepOld, srep.EventShow[e][1])))))
+//@   frameonly
+//@   loop 1: modifies result[*]
+//@   loop 1: invariant justified: forall p int :: haskey(result, p) ==>
+//@             (exists e simEvent :: haskey(srep.EventShow, e) && srep.EventShow[e][0] == p &&
+//@                ((e.event == EVENTONEXIT && inShutDown) ||
+//@                 (e.event == EVENTONVALID && watched(srep, srep.EventShow[e][1]) && !watched(srepOld, srep.EventShow[e][1]))))
